@@ -37,9 +37,14 @@ def oneline(value: object) -> str:
     Control characters are escaped rather than dropped, so what the peer sent is still
     visible to whoever is reading, and still only one line.
     """
+    # Processes.write() sends the event as ASCII: a printable but non-ASCII character (an accented letter in a
+    # BGP-LS node name, the U+FFFD of an undecodable byte) is escaped too, or writing the event raises
     text = str(value)
     return ''.join(
-        character if character.isprintable() or character == ' ' else repr(character)[1:-1] for character in text
+        character
+        if character.isascii() and (character.isprintable() or character == ' ')
+        else character.encode('unicode_escape').decode('ascii')
+        for character in text
     )
 
 
